@@ -83,3 +83,10 @@ check(
     "Uses the library's celerity() only on the wave-age boundary (within 0.3 %), an independent Newton celerity elsewhere; rectangles that overlap without sharing a bin are not generated.",
     "DESIGN.md section 5 C09",
 )
+check(
+    "C14",
+    "Hypothesis-generated station layouts / queries (physical longitudes expressed in either convention on either side) against a reference on physical coordinates, metamorphic re-expression of dataset and query conventions, and an exhaustive lattice of small layouts around the 0 and 180 meridians",
+    "All layouts of 1-3 stations on a 12-point longitude lattice x 6 queries x 4 convention pairs x 2 tolerances x 3 methods exhaustively; hundreds (quick) / tens of thousands (thorough) of random layouts with up to 6 stations, duplicated queries, tolerances 0..10, max_sites 1..6, optional precomputed coordinates. Exploration outside the lattice.",
+    "Trusts the reference distance / weighting in vf/props/c14.py; boxes whose tolerance-widened extent leaves the query convention's own range are not generated (the statement leaves them undefined); distances within 1e-9 of a threshold are not judged.",
+    "DESIGN.md section 5 C14",
+)
